@@ -150,7 +150,12 @@ def run(R, tier):
                 rep[idxs.index(1)] = {'mv': new}
                 w.draggable_points = rep
                 R.count('drag=traitlet')
-            after = [[G.num_of(x)] for x in mv._values]
+            try:
+                after = [[G.num_of(x)] for x in mv._values]
+            except ValueError as e:
+                viol('drag-writeback', f'after reporting {new} (what the front end read from the payload, partly changed) for the multivector {str(t)[:200]} in {an} '
+                                       f'the stored coefficients are {list(mv._values)}: {e}'[:500], algebra=an, mv=str(t), reported=[float(x) for x in new])
+                break
             inp.append({'check': f'gmv_eqb (inplace_one {G.czl(canon)} {before} {G.czl(new)}) (mkG {G.czl(t[2])} {G.clist([G.czl(x) for x in after])} false)',
                         'meta': {'what': 'inplacereplace', 'algebra': an, 'tree': str(t), 'impl': str(after)}})
             R.case(('drag', an, str(t), str(new)), True)
